@@ -226,8 +226,15 @@ def stepOp (j : Json) : M Json := do
       | "add" => ArrV.binaryOp T .add l k
       | "sub" => do let q ← ArrV.binaryOp T .sub l k; q.applyUn T .neg
       | _ => .error .badOp
+    -- a numpy ndarray on the left handles the operator itself: `np.multiply(nd, a)` reaches
+    -- `Array.__array_ufunc__` -> `_wrap_numpy`: raw values, unit from `func(nd, 1.0 * a.unit)`, no conversion of `nd`
+    let viaUfunc := getStr? j "py" == some "nd"
     let res ← match ← getObj aid with
       | .arr _ => do
+        if viaUfunc then
+          if name == "mul" then allocArr (← liftR (ArrV.applyBin T .mul (← readArr aid) k))
+          else fail .badOp
+        else
         -- Array defines no `__radd__` / `__rsub__`: Python raises TypeError
         if name == "add" || name == "sub" then fail .typeErr
         allocArr (← liftR (f (← readArr aid)))
